@@ -1,19 +1,24 @@
 import SaramaVerif.Driver.ProducerTrace
 import SaramaVerif.Driver.FeederTrace
-/- C12 driver: producer traces (reset/ev/bb/end lines) and consumer feeder traces (creset/cf lines) -/
-structure Both where
+import SaramaVerif.Driver.GroupTrace
+/- C12 driver: producer traces (reset/ev/bb/end), consumer feeder traces (creset/cf) and group session traces (greset/q/h) -/
+structure All where
   p : Driver.ProducerTrace.DS
   c : Driver.FeederTrace.DS
+  g : Driver.GroupTrace.DS
 
-def bothStep (b : Both) (t : List String) : Both × String :=
+def allStep (b : All) (t : List String) : All × String :=
   match t with
   | "creset" :: _ | "cf" :: _ =>
     let r := Driver.FeederTrace.step b.c t
     ({ b with c := r.1 }, r.2)
+  | "greset" :: _ | "q" :: _ | "h" :: _ =>
+    let r := Driver.GroupTrace.step b.g t
+    ({ b with g := r.1 }, r.2)
   | _ =>
     let r := Driver.ProducerTrace.step b.p t
     ({ b with p := r.1 }, r.2)
 
 def main : IO Unit := do
-  Driver.loop (← IO.getStdin) (← IO.getStdout) bothStep
-    { p := { st := Model.Producer.init { retryMax := 0, icepts := 0, idem := false }, failed := false }, c := {} }
+  Driver.loop (← IO.getStdin) (← IO.getStdout) allStep
+    { p := { st := Model.Producer.init { retryMax := 0, icepts := 0, idem := false }, failed := false }, c := {}, g := {} }
